@@ -103,6 +103,17 @@ CONTROLS = [
     ('x3-origin-rebound', 'X3', 'syn', 'origin-source', [(PPF, '                    ret.push(&text, origin);\n                    defines = new_defines;', '                    let origin = origin.map(|(_, r)| (PathBuf::from(path.as_ref()), r));\n                    ret.push(&text, origin);\n                    defines = new_defines;', 1)]),
     ('x8-counter-in-place', 'X8', 'syn', 'counter-modified', [(PPF, '                let (include, new_defines) =\n                    preprocess_inner(', '                let include_depth = include_depth + 0;\n                let (include, new_defines) =\n                    preprocess_inner(', 1)]),
     ('k2-conditional-push', 'K2', 'syn', 'begin_keywords', [(PARSER + 'utils.rs', '        "directive" => current_version.borrow_mut().push(Version::Directive),', '        "directive" => if !in_directive() { current_version.borrow_mut().push(Version::Directive) },', 1)]),
+    ('t4-iter-children-not-reversed', 'T4', 'syn', "Iter<'a>:next", [('sv-parser-syntaxtree/src/any_node.rs',
+        '            let mut x = x.next();\n            x.0.reverse();\n            self.next.0.append(&mut x.0);', '            let mut x = x.next();\n            self.next.0.append(&mut x.0);', 1)]),
+    ('t4-leave-after-children', 'T4', 'syn', "EventIter<'a>:next", [('sv-parser-syntaxtree/src/any_node.rs',
+        '                self.next.0.push(NodeEvent::Leave(x.clone()));\n                let mut x: NodeEvents = x.next().into();\n                x.0.reverse();\n                self.next.0.append(&mut x.0);',
+        '                let leave = NodeEvent::Leave(x.clone());\n                let mut x: NodeEvents = x.next().into();\n                x.0.reverse();\n                self.next.0.append(&mut x.0);\n                self.next.0.push(leave);', 1)]),
+    ('x15-elsif-after-hit-still-tested', 'X15', 'syn', 'elsif-step', [(PPF,
+        '                    if hit {\n                        skip_nodes.push(elsifbody.into());\n                    } else if defines.contains_key(&elsifid) || is_predefined_text_macro(&ifid) {\n                        hit = true;\n                    } else {\n                        skip_nodes.push(elsifbody.into());\n                    }\n                }\n\n                if let Some(elsebody) = elsebody {\n                    let (_, ref keyword, ref elsebody) = elsebody;\n                    skip_nodes.push(keyword.into());\n                    if hit {\n                        skip_nodes.push(elsebody.into());\n                    }\n                }\n            }\n            NodeEvent::Enter(RefNode::WhiteSpace(x))',
+        '                    if defines.contains_key(&elsifid) || is_predefined_text_macro(&ifid) {\n                        hit = true;\n                    } else {\n                        skip_nodes.push(elsifbody.into());\n                    }\n                }\n\n                if let Some(elsebody) = elsebody {\n                    let (_, ref keyword, ref elsebody) = elsebody;\n                    skip_nodes.push(keyword.into());\n                    if hit {\n                        skip_nodes.push(elsebody.into());\n                    }\n                }\n            }\n            NodeEvent::Enter(RefNode::WhiteSpace(x))', 1)]),
+    ('x16-directive-after-include-not-checked', 'X16', 'syn', 'include-line', [(PPF,
+        '            NodeEvent::Enter(RefNode::CompilerDirective(x)) => {\n                let locate: Locate = x.try_into().unwrap();\n                if let Some(last_include_line) = last_include_line {\n                    if last_include_line == locate.line {\n                        return Err(Error::IncludeLine);\n                    }\n                }\n            }',
+        '            NodeEvent::Enter(RefNode::CompilerDirective(_)) => {}', 1)]),
     # ---- MIR controls (each needs one cargo +nightly check of the scratch copy)
     ('s1-version-stack-not-reset', 'S1', 'mir', 'not-reset:CURRENT_VERSION', [(PARSER + 'lib.rs', '    clear_directive();\n    clear_version();\n}', '    clear_directive();\n}', 1)]),
     ('s2-grammar-function-exported', 'S2', 'mir', 'source_text', [(PARSER + 'source_text/system_verilog_source_text.rs', 'pub(crate) fn source_text(s: Span)', 'pub fn source_text(s: Span)', 1)]),
@@ -113,6 +124,7 @@ CONTROLS = [
         'pub(crate) fn in_directive() -> bool {\n    IN_DIRECTIVE.with(|x| x.borrow().last().is_some())', 'pub(crate) fn in_directive() -> bool {\n    IN_DIRECTIVE.with(|x| x.borrow().last().is_some() && current_version().is_none())', 1)]),
     ('s7-hash-order-reaches-output', 'S7', 'mir', 'preprocess_str:into_iter', [(PPF,
         '    for (k, v) in pre_defines {\n        defines.insert(k.clone(), (*v).clone());\n    }', '    let mut first_define = None;\n    for (k, v) in pre_defines {\n        first_define.get_or_insert(k.clone());\n        defines.insert(k.clone(), (*v).clone());\n    }\n    let _ = first_define;', 1)]),
+    ('p1-unsigned-subtraction', 'P1', 'mir', 'assert-overflow-sub', [(PPF, '                last_include_line = Some(locate.line);', '                last_include_line = Some(locate.line - 1 + 1);', 1)]),
     ('p1-new-unwrap', 'P1', 'mir', 'preprocess_str:unclassified', [(PPF, '    let mut ret = PreprocessedText::new();\n\n    for n in pp_text', '    let mut ret = PreprocessedText::new();\n    let _first = include_paths.first().unwrap();\n\n    for n in pp_text', 1)]),
 ]
 
